@@ -49,3 +49,6 @@ add("C11", "exhaustive enumeration + property-based testing: fixture keys x enco
 add("C12", "property-based testing with metamorphic pairs and differential validators: a generated chain that satisfies every constraint must be accepted, the same chain with exactly one dimension violated must be rejected, by OpenSSL and by webpki where its semantics cover the dimension",
     "Metamorphic pairs (baseline vs single violation) over generated chains of depth 2..4; the accept/reject verdict of two independent validators is the oracle, which ties every rejection to the one dimension that changed.",
     "OpenSSL X509_verify_cert (default flags, explicit time and purpose) and webpki verify_for_usage; each is asked only about dimensions its documented semantics cover.", "DESIGN.md §4 C12")
+add("C19", "property-based testing with a validity predicate: every output channel and every reachable error text scanned for 16-byte windows of the secret key components in raw / hex / decimal-list / base64 form; error paths reached by generated PEM text edits, DER mutations and wrong-algorithm loads",
+    "Generated artefacts and generated error paths (text edits of the key's PEM, mutations of its DER, every wrong algorithm x entry point) under both back ends; the oracle is a leak scanner over four renderings whose sensitivity is self-checked against the explicit export in every artefact case.",
+    "A leak is defined as a contiguous >= 16-byte window of a secret component; " + DEC + " for extracting the components.", "DESIGN.md §4 C19")
